@@ -49,6 +49,7 @@ type Part struct {
 	Expr   string // #{Expr} (string typed, or any type with Verb)
 	Verb   string // %d etc
 	EscHash bool  // \#{Static} : rendered literally as #{Static}
+	EscBackslash bool // a backslash in front of an interpolation, written `\\` in the template, rendered as one `\`
 }
 
 type AttrKind int
@@ -220,6 +221,9 @@ func (p *Printer) verbSep() string {
 func (p *Printer) parts(ps []Part) {
 	for _, pt := range ps {
 		switch {
+		case pt.EscBackslash:
+			p.feat("text.escbackslash")
+			p.w(`\\`)
 		case pt.EscHash:
 			p.feat("text.eschash")
 			p.w(`\#{` + pt.Static + `}`)
